@@ -187,6 +187,34 @@ func genCodeSpanHTML(r *proto.Rand) string {
 	return pick(r, []string{"", "", "x "}) + html + link + pick(r, []string{"", "", tick, "</" + name + ">", " x"})
 }
 
+// one line: code spans with backtick strings of other lengths inside, links inside and after
+func genLooseTicks(r *proto.Rand) string {
+	n := 1 + r.Intn(3)
+	m := n + 1 + r.Intn(2)
+	switch r.Intn(6) {
+	case 0:
+		m = n // an exact string: the code span simply ends
+	case 1:
+		if n > 1 {
+			m = n - 1 // a shorter string: inert
+		}
+	}
+	link := "[" + pick(r, []string{"", "x", "t t"}) + "](" + sd(r) + ")"
+	inner := pick(r, []string{"", " ", "a", "a ", "\\", "[", link + " "}) + ticksN(m) + pick(r, []string{"", " ", "b", link, " " + link, "\\" + link, "[x", "](" + sd(r) + ")"})
+	s := ticksN(n) + inner + pick(r, []string{ticksN(n), ticksN(n), "", ticksN(n) + " " + link, ticksN(m)})
+	switch r.Intn(5) {
+	case 0:
+		s = filler(r) + s
+	case 1:
+		s = s + filler(r)
+	case 2:
+		s = link + " " + s
+	case 3:
+		s = "\\" + s
+	}
+	return s
+}
+
 // parenthesised titles
 func genParenTitle(r *proto.Rand) string {
 	d := sd(r)
